@@ -22,6 +22,10 @@ package common
 
 //@ rec SumIn(s any, tx *Transaction, n int) mathint = n <= 0 ? 0 : SumIn(s, tx, n - 1) + StoreAmount(s, tx.Inputs[n - 1].Hash, tx.Inputs[n - 1].Index)
 //@ rec SumOut(tx *Transaction, n int) mathint = n <= 0 ? 0 : SumOut(tx, n - 1) + val(tx.Outputs[n - 1].Amount)
+//@ -- congruence theorem (ext_induct.go): the sums do not change when the heap changes elsewhere (Validate fills ver.hash, which lives in the
+//@ -- same heap component as the input hashes)
+//@ recframe SumIn
+//@ recframe SumOut
 
 // ───────────── ordinary inputs ─────────────
 // OrdInput is what validateInputs itself tests (len(Genesis) == 0); on a decoded transaction (NilIfEmpty(Genesis), C06) it coincides
@@ -29,6 +33,7 @@ package common
 
 //@ spec OrdInput(in *Input) bool = in.Mint == nil && in.Deposit == nil && len(in.Genesis) == 0
 //@ spec OrdInputs(tx *Transaction) bool = forall j int :: 0 <= j && j < len(tx.Inputs) ==> OrdInput(tx.Inputs[j])
+//@ spec NoSpecialInputs(tx *Transaction) bool = forall j int :: 0 <= j && j < len(tx.Inputs) ==> tx.Inputs[j].Mint == nil && tx.Inputs[j].Deposit == nil
 //@ spec InputAssetIs(s any, in *Input, a crypto.Hash) bool = StoreAsset(s, in.Hash, in.Index) == a
 
 // The total input amount of an accepted transaction: the mint amount | the deposit amount | the sum of the referenced outputs.
